@@ -1820,6 +1820,11 @@ class ForAll(QuantifiedConditional):
                 solution_set = []
                 break
 
+        if solution_set is None:
+            # the quantified expression has no value at all: the condition holds vacuously for the incoming bindings
+            yield OperationResult(sources, False, self)
+            return
+
         # Yield the remaining bindings (non-universal) merged with the incoming sources
         yield from [
             OperationResult({**sources, **sol}, False, self) for sol in solution_set
